@@ -73,6 +73,8 @@ func signerOptsT(k *Keys, s BaseSpec, timeMode int) []integrity.SignerOpt {
 		opts = []integrity.SignerOpt{integrity.OptSignWithTime(fixedTime), integrity.OptSignDeterministic()}
 	case 1:
 		opts = []integrity.SignerOpt{integrity.OptSignWithTime(fixedTime)}
+	case 3:
+		opts = []integrity.SignerOpt{integrity.OptSignDeterministic()}
 	}
 	if s.Scheme == "pgp" {
 		opts = append(opts, integrity.OptSignWithEntity(k.Entities[s.Entity]))
@@ -445,6 +447,20 @@ func APIEdits(r *Rng, img []byte) []Mutation {
 	edit("add unsigned object to no group", func(f *sif.FileImage) error {
 		return f.AddObject(mustDI(sif.DataGeneric, "new", sif.OptNoGroup()), sif.OptAddDeterministic())
 	})
+	edit("add two unsigned objects to no group", func(f *sif.FileImage) error {
+		if err := f.AddObject(mustDI(sif.DataGeneric, "new", sif.OptNoGroup()), sif.OptAddDeterministic()); err != nil {
+			return err
+		}
+		return f.AddObject(mustDI(sif.DataGenericJSON, "{}", sif.OptNoGroup()), sif.OptAddDeterministic())
+	})
+	edit("add three unsigned objects to no group", func(f *sif.FileImage) error {
+		for i := 0; i < 3; i++ {
+			if err := f.AddObject(mustDI(sif.DataGeneric, "x", sif.OptNoGroup()), sif.OptAddDeterministic()); err != nil {
+				return err
+			}
+		}
+		return nil
+	})
 	edit("add empty unsigned object to group 1", func(f *sif.FileImage) error {
 		return f.AddObject(mustDI(sif.DataGeneric, "", sif.OptGroupID(1)), sif.OptAddDeterministic())
 	})
@@ -545,6 +561,13 @@ func TableEdits(r *Rng, img []byte, pairs bool) []Mutation {
 			}
 		}
 	}
+	var ungroup []func(b []byte)
+	for i, d := range si.Descs {
+		if d.Used && d.Type != DataSignature {
+			o := doff(i)
+			ungroup = append(ungroup, func(b []byte) { putLE(b, o+9, 4, uint64(GroupMask)) })
+		}
+	}
 	var ms []Mutation
 	apply := func(what string, fs ...func(b []byte)) {
 		b := bytes.Clone(img)
@@ -557,6 +580,10 @@ func TableEdits(r *Rng, img []byte, pairs bool) []Mutation {
 	}
 	for _, e := range es {
 		apply(e.what, e.f)
+	}
+	if len(ungroup) >= 2 {
+		apply("two objects moved out of every group", ungroup[0], ungroup[1])
+		apply("every object moved out of every group", ungroup...)
 	}
 	np := 150
 	if pairs {
@@ -782,6 +809,25 @@ func TamperFindings(base []byte, c *VCase, what string) []Finding {
 		for _, d := range mi.Descs {
 			if d.Used && d.Type != DataSignature && !baseViews[fmt.Sprintf("%d|%v", d.GroupID(), viewOf(c.Image, mi, d))] {
 				add("default verification succeeded on an image in which object %d does not have the protected view of any signed object", d.ID)
+			}
+		}
+		// ... and what it reports is what was signed, object for object: the protected views
+		// of the two images coincide as multisets (nothing signed vanished or was doubled)
+		count := map[string]int{}
+		for _, d := range bi.Descs {
+			if d.Used && d.Type != DataSignature {
+				count[fmt.Sprintf("%d|%v", d.GroupID(), viewOf(base, bi, d))]++
+			}
+		}
+		for _, d := range mi.Descs {
+			if d.Used && d.Type != DataSignature {
+				count[fmt.Sprintf("%d|%v", d.GroupID(), viewOf(c.Image, mi, d))]--
+			}
+		}
+		for _, d := range bi.Descs {
+			if d.Used && d.Type != DataSignature && count[fmt.Sprintf("%d|%v", d.GroupID(), viewOf(base, bi, d))] > 0 {
+				add("default verification succeeded although the signed object %d (as signed) is no longer in the image", d.ID)
+				break
 			}
 		}
 	}
